@@ -7,33 +7,37 @@
 (*   HypsSubset  hyps(result) \subseteq union of hyps(premises)                                                       *)
 (* kind "proof" events (whole synthetic proofs through ProofReconstruction.validate_step):                            *)
 (*   Refutation  an accepted proof ending in the empty clause => the formulas it assumed (plus the hypotheses left in  *)
-(*               the final theorem) are jointly unsatisfiable; AssumedOnly: the final hypotheses are assumed formulas *)
+(*               the final theorem) are jointly unsatisfiable                                                         *)
 (* Context rules (refl bind let onepoint sko_ex sko_forall) claim their conclusion under the variable mapping of the  *)
 (* enclosing anchor: their events are recorded but never judged (nt = FALSE).                                         *)
-(* Divergence (informational): an intended instance of the reference schema was refused by the code.                  *)
+(* Divergence (informational): an intended instance of the reference schema was refused by the code; the final       *)
+(* theorem of a proof depends on a formula that was not assumed at top level (a local assumption left its subproof).  *)
 EXTENDS C18_Sem, TraceLib
 ContextRules == {"verit_refl", "verit_bind", "verit_let", "verit_onepoint", "verit_sko_ex", "verit_sko_forall"}
 IsProof(e) == e.rule = "proof"
 Judged(e) == e.outcome = "accepted" /\ e.rule \notin ContextRules /\ ~IsProof(e)
 \* the final theorem of an accepted proof:  hyps |- false
-ProofPrems(e) == [k \in 1..Len(e.assumed) |-> [h |-> <<>>, c |-> e.assumed[k]]]
+\* what an accepted proof ending in the empty clause claims: the formulas it assumed at top level (as recorded by the code) together
+\* with the hypotheses left in its final theorem are jointly unsatisfiable
+ProofAssumed(e) == e.assumed \o e.result.h
+ProofPrems(e) == [k \in 1..Len(ProofAssumed(e)) |-> [h |-> <<>>, c |-> ProofAssumed(e)[k]]]
 ProofGoal(e) == [h |-> <<>>, c |-> FalseC]
 EndsEmpty(e) == e.outcome = "accepted" /\ e.result.c = FalseC
+\* informational: the final theorem depends on a formula that was not assumed at top level (a local assumption escaped its subproof)
+AssumedOnly(e) == HypSet(e.result) \subseteq { e.assumed[k] : k \in 1..Len(e.assumed) }
 EntailedIn(k, prems, res) == IF k = "E" THEN EntailedX(prems, res, NModel) ELSE IF k = "A" THEN EntailedA(prems, res, Grid) ELSE TRUE
 \* verdict of one event: [f |-> set of failing clauses, nt |-> the consequence clause was really evaluated]; the tier is computed once
 ProofVerdict(e) ==
   IF ~EndsEmpty(e) THEN [f |-> {}, nt |-> FALSE]
   ELSE LET k == Tier(ProofPrems(e), ProofGoal(e)) IN
-       [f |-> (IF ~EntailedIn(k, ProofPrems(e), ProofGoal(e)) THEN {"Refutation"} ELSE {})
-              \cup (IF HypSet(e.result) \subseteq { e.assumed[j] : j \in 1..Len(e.assumed) } THEN {} ELSE {"AssumedOnly"}),
-        nt |-> k # "none"]
+       [f |-> IF ~EntailedIn(k, ProofPrems(e), ProofGoal(e)) THEN {"Refutation"} ELSE {}, nt |-> k # "none"]
 StepVerdict(e) ==
   IF ~Judged(e) THEN [f |-> {}, nt |-> FALSE]
   ELSE LET k == Tier(e.prems, e.result) IN
        [f |-> (IF ~EntailedIn(k, e.prems, e.result) THEN {"Entailed"} ELSE {}) \cup (IF HypsSubset(e.prems, e.result) THEN {} ELSE {"HypsSubset"}),
         nt |-> k # "none"]
 Verdict(e) == IF IsProof(e) THEN ProofVerdict(e) ELSE StepVerdict(e)
-Diverges(e) == ~IsProof(e) /\ e.mut = "correct" /\ e.outcome # "accepted"
+Diverges(e) == IF IsProof(e) THEN EndsEmpty(e) /\ ~AssumedOnly(e) ELSE e.mut = "correct" /\ e.outcome # "accepted"
 TNext == LET e == Trace[l] v == Verdict(e) IN TStep(e.tid, v.f, v.nt, Diverges(e))
 TSpec == TInit /\ [][TNext]_l
 =============================================================================
